@@ -63,7 +63,8 @@ def cases(tier, seed):
         out.append({'g': g, 'directed': d, 'ws': seed * 100 + i, 'schemes': ['bin', 'real', 'dyad', 'logu', 'const']})
     # dense graphs of 60-130 nodes: per-node triangle sums of several thousand (an intermediate of reduced precision
     # -- float16 from an 8-bit input, say -- is exact below 2048 only)
-    for n, p, d in ((64, .9, False), (72, .85, True)) + (((130, .95, False), (100, .6, True)) if thorough else ()):
+    # (and sizes one above a multiple of 64 / 128: a routine that works through its nodes in blocks has its last block there)
+    for n, p, d in ((64, .9, False), (72, .85, True), (65, .3, False), (129, .15, True), (257, .06, False)) + (((130, .95, False), (100, .6, True), (513, .03, True)) if thorough else ()):
         out.append({'g': ['er', n, p, d, seed + n], 'directed': d, 'ws': seed + n, 'schemes': ['bin'], 'bigdense': True})
     out.append({'kind': 'degenerate', 'g': ['named', 'path', 2], 'directed': False, 'ws': 0, 'schemes': []})
     out.append({'kind': 'concurrent', 'g': ['named', 'path', 2], 'directed': False, 'ws': seed, 'schemes': [], 'n': 220 if tier == 'thorough' else 120})
